@@ -579,8 +579,10 @@ func prodClientRuns(env core.Env, rep *core.Report, job *int) {
 		mu.Unlock()
 		switch oc {
 		case "200":
+			// a receiver may acknowledge verbosely: the answer is longer than any column the
+			// service might want to keep of it
 			w.WriteHeader(200)
-			_, _ = w.Write([]byte("thanks"))
+			_, _ = w.Write([]byte("thanks " + strings.Repeat("for the header, it was received and filed. ", 30)))
 		case "500":
 			w.WriteHeader(500)
 			_, _ = w.Write([]byte("boom"))
